@@ -34,11 +34,16 @@ Definition time_eqb (a b : gtime) : bool :=
 Definition olist_eqb {A} (e : A -> A -> bool) (a b : option (list A)) : bool :=
   match a, b with Some x, Some y => list_eqb e x y | None, None => true | _, _ => false end.
 
+Definition osign_eqb (a b : option gsign) : bool :=
+  match a, b with
+  | Some (r, s, v), Some (r', s', v') => N.eqb r r' && N.eqb s s' && N.eqb v v'
+  | None, None => true | _, _ => false end.
+
 Definition tx_eqb (a b : Tx) : bool :=
   bytes_eqb a.(x_Source _) b.(x_Source _) && bytes_eqb a.(x_Target _) b.(x_Target _) && Z.eqb a.(x_Type _) b.(x_Type _) &&
   bytes_eqb a.(x_Time _) b.(x_Time _) && bytes_eqb a.(x_Data _) b.(x_Data _) && bytes_eqb a.(x_ExtraData _) b.(x_ExtraData _) &&
   Z.eqb a.(x_ExtraDataType _) b.(x_ExtraDataType _) && bytes_eqb a.(x_Sub _) b.(x_Sub _) &&
-  bytes_eqb a.(x_SubHash _) b.(x_SubHash _) && bytes_eqb a.(x_Hash _) b.(x_Hash _) && obytes_eqb a.(x_Sign _) b.(x_Sign _) &&
+  bytes_eqb a.(x_SubHash _) b.(x_SubHash _) && bytes_eqb a.(x_Hash _) b.(x_Hash _) && osign_eqb a.(x_Sign _) b.(x_Sign _) &&
   N.eqb a.(x_Nonce _) b.(x_Nonce _) && N.eqb a.(x_RequestId _) b.(x_RequestId _) &&
   bytes_eqb a.(x_SocketRequestId _) b.(x_SocketRequestId _) && bytes_eqb a.(x_ChainId _) b.(x_ChainId _).
 
